@@ -26,7 +26,7 @@
                 (rescan = false) only; finding swc-sparse-scan-race is fixed
      (count_eq_entries_at_quiescence now covers Clear: the defect clear-count-race
       was fixed in /repo by aae41ee and the model follows the repaired code) *)
-From Sdns Require Import Common.Base Common.GoList Gen.C16 C16.Model C16.Conc C16.Limiter C16.Lin.
+From Sdns Require Import Common.Base Common.GoList Gen.C16 C16.Model C16.Conc C16.Limiter C16.Lin C16.Run.
 From Sdns Require Import C16.Proofs_cyc C16.Proofs_tab C16.Proofs_wf C16.Proofs_more C16.Proofs_seg C16.Proofs_hist C16.Proofs_conc C16.Proofs_evict C16.Proofs_cap C16.Proofs_gen C16.Proofs_lim C16.Proofs_float C16.Proofs_lin C16.Wrap C16.Proofs_wrap.
 Open Scope nat_scope.
 
@@ -418,6 +418,19 @@ Example ex_wlin :
     [[mk_hop (LStore 0 7 1) 1 2; mk_hop (LGet 1 7 None) 3 8; mk_hop (LStore 2 7 20) 4 5; mk_hop (LGet 3 7 (Some 20%N)) 9 10];
      [mk_hop (LStore 0 7 1) 1 2; mk_hop (LGet 1 7 None) 3 8; mk_hop (LStore 2 7 20) 4 5; mk_hop (LGet 3 7 None) 9 10];
      [mk_hop (LStore 0 7 1) 1 2; mk_hop (LGet 1 7 (Some 1%N)) 3 4]] = [true; false; false].
+Proof. vm_compute. reflexivity. Qed.
+
+(* the search of Run.v on recorded concurrent Gets of the limiter store (CaseLimC): two
+   first-sight Gets of one key that overlap and agree are fine; two that hand out different
+   limiters, a limiter handed out under two keys, and more keys than the store has room for
+   (an eviction would be needed) are rejected *)
+Example ex_limc :
+  map (fun c => (check_case c, spec_case c))
+    [CaseLimC 2 [Gop 2 7 1 1 2; Gop 0 9 2 3 6; Gop 1 9 2 4 5; Gop 3 9 2 7 8; Gop 3 7 1 9 10];
+     CaseLimC 2 [Gop 2 7 1 1 2; Gop 0 9 2 3 6; Gop 1 9 3 4 5; Gop 3 9 3 7 8; Gop 3 7 1 9 10];
+     CaseLimC 2 [Gop 0 7 1 1 2; Gop 1 9 1 3 4];
+     CaseLimC 1 [Gop 0 7 1 1 2; Gop 1 9 2 3 4]]
+  = [(true, true); (false, false); (false, false); (false, true)].
 Proof. vm_compute. reflexivity. Qed.
 
 (* 13. No writer waits on a lock while holding one; there are only per-segment locks. *)
